@@ -21,7 +21,7 @@ def mutants(path, text):
     for i in range(end):
         l = lines[i]
         st = l.strip()
-        only_new = "--swap" in sys.argv or "--ror" in sys.argv or "--const" in sys.argv or "--method" in sys.argv
+        only_new = "--swap" in sys.argv or "--ror" in sys.argv or "--const" in sys.argv or "--method" in sys.argv or "--args" in sys.argv or "--cond" in sys.argv
         if not only_new and st.endswith(";") and not st.startswith(("let ", "use ", "//", "pub ", "type ", "return")) and "(" in st and l.startswith("    "):
             out.append(("del %d: %s" % (i + 1, st[:70]), "\n".join(lines[:i] + lines[i + 1:])))
         # swap two adjacent call statements of the same block (ordering mutants)
@@ -38,6 +38,24 @@ def mutants(path, text):
             for (a, b_) in ((" < ", " <= "), (" <= ", " < "), (" > ", " >= "), (" >= ", " > "), (" == ", " != "), (" != ", " == "), (" && ", " || "), (" || ", " && ")):
                 if a in l and "->" not in l and "::<" not in l:
                     out.append(("ror %d: %s [%s->%s]" % (i + 1, st[:60], a.strip(), b_.strip()), "\n".join(lines[:i] + [l.replace(a, b_, 1)] + lines[i + 1:])))
+        # swap two comma-separated arguments / tuple components written on one line: f(a, b) -> f(b, a)
+        if "--args" in sys.argv and l.startswith("    ") and not st.startswith(("//", "fn ", "pub ", "impl", "where", "use ", "#", "let (", "move |", "|")):
+            for mm in re.finditer(r"\(([^()]+)\)", l):
+                inner = mm.group(1)
+                parts = [x.strip() for x in inner.split(",")]
+                if len(parts) == 2 and all(parts) and parts[0] != parts[1] and "|" not in inner and ":" not in inner:
+                    rep = l[:mm.start(1)] + parts[1] + ", " + parts[0] + l[mm.end(1):]
+                    out.append(("args %d: %s [(%s, %s) swapped]" % (i + 1, st[:60], parts[0][:15], parts[1][:15]), "\n".join(lines[:i] + [rep] + lines[i + 1:])))
+        # condition forced to a constant: `if c {` -> `if true {` / `if false {`  (also `} else if c {`)
+        if "--cond" in sys.argv:
+            mc = re.match(r"^(\s+)(\}? ?(?:else )?if )(.*) \{$", l)
+            if mc and "let " not in l:
+                for cst in ("true", "false"):
+                    keep = "let _ = %s; " % mc.group(3) if False else ""
+                    out.append(("cond %d: %s [-> %s]" % (i + 1, st[:60], cst), "\n".join(lines[:i] + [mc.group(1) + mc.group(2) + cst + " {"] + lines[i + 1:])))
+            mw = re.match(r"^(\s+)while (.*) \{$", l)
+            if mw and "let " not in l:
+                out.append(("cond %d: %s [-> false]" % (i + 1, st[:60]), "\n".join(lines[:i] + [mw.group(1) + "while false {"] + lines[i + 1:])))
         # sibling-method replacement
         if "--method" in sys.argv and l.startswith("    ") and not st.startswith(("//", "fn ", "pub ", "impl", "where", "use ", "#")):
             for (a, b_) in ((".pop_front()", ".pop_back()"), (".pop_back()", ".pop_front()"), (".push_back(", ".push_front("), (".push_front(", ".push_back("),
